@@ -256,6 +256,14 @@ def compute_ir(
                 itg_data.subdomain_id,
                 prefix,
             )
+    if len(set(integral_names.values())) != len(integral_names):
+        # Integrals of one form are identified by their type and subdomain id; two
+        # integration domains with the same type and id would get the same name
+        # (and could not be told apart in the ufcx_form either)
+        raise RuntimeError(
+            "Integrals of the same type and subdomain id over different integration domains "
+            "in one form are not supported."
+        )
 
     irs = [
         _compute_integral_ir(
